@@ -49,6 +49,13 @@ fn extra_line(rng: &mut Rng, h: &[Op], p: usize) -> (Vec<u8>, &'static str, Vec<
         let n = rng.range(385, 460);
         (0..n).map(|_| armor_char(rng.below(64) as u8)).collect()
     };
+    if rng.ratio(1, 3) {
+        let base = match recent.and_then(|l| l.sent.as_ref()) {
+            Some(sn) => (sn.n, sn.k, sn.id),
+            None => (3, 1, Some(rng.below(10) as u8)),
+        };
+        return (composed_line(rng, base), "composed", vec![Fault::RewriteHeader]);
+    }
     match rng.below(14) {
         10 => {
             // irregular numbering with a valid checksum: fragment 0, count 0, number beyond count
